@@ -164,3 +164,61 @@ func Harness_C09_flow() {
 		}
 	}
 }
+
+
+// Harness_C01_trust: the three trust configurations (IdP metadata, certificate fingerprint, pinned
+// certificate) against every signing layout and every KeyInfo layout (the signer's certificate, none,
+// signer+other, other+signer): an assertion is returned only under a signature of the trusted key.
+func Harness_C01_trust() {
+	r := &spFlowRun{}
+	r.sp = verifSP("sp")
+	mode := verifChoose("trust.mode", 3)
+	switch mode {
+	case 1:
+		alg := "http://www.w3.org/2001/04/xmlenc#sha256"
+		fp, err := fingerprint(verifTestCert(0, 0), alg)
+		if err != nil {
+			return
+		}
+		r.sp.IDPCertificateFingerprint, r.sp.IDPCertificateFingerprintAlgorithm = &fp, &alg
+	case 2:
+		pinned := verifTestCertB64(0, 0)
+		r.sp.IDPCertificate = &pinned
+	}
+	verifTolerances()
+	verifAssume(MaxClockSkew < time.Hour)
+	r.now = verifNondetTime("now")
+	verifAssume(r.now.After(time.Unix(0, 0)))
+	now := r.now
+	TimeNow = func() time.Time { return now }
+	r.ids = []string{"id-request"}
+	r.cur = r.sp.AcsURL
+	r.d = verifValidDoc("doc", 1, r.sp, r.ids, r.now, true)
+	if r.d.SignResponse != 0 {
+		r.d.KeyInfo = verifChoose("doc.KeyInfo", 4)
+	}
+	for i := range r.d.Assertions {
+		if r.d.Assertions[i].Sign != 0 {
+			r.d.Assertions[i].KeyInfo = verifChoose("doc.A.KeyInfo", 4)
+		}
+	}
+	r.a, r.err = r.sp.ParseXMLResponse(verifMaterialise(r.d), r.ids, r.cur)
+	verifNote("err", r.err)
+	if r.err != nil {
+		verifReach("rejected")
+		return
+	}
+	verifReach("accepted")
+	if mode == 1 {
+		verifReach("accepted-by-fingerprint")
+	}
+	if mode == 2 {
+		verifReach("accepted-by-pinned-certificate")
+	}
+	verifAssert(r.a != nil && len(r.d.Assertions) == 1, "C01/trust/returned-assertion-is-from-the-document")
+	if r.a == nil || len(r.d.Assertions) != 1 {
+		return
+	}
+	verifAssert(r.d.SignResponse != 2, "C01/trust/untrusted-response-signature-rejects")
+	verifAssert(r.d.Assertions[0].Sign == 1 || r.d.SignResponse == 1, "C01/trust/covered-by-trusted-signature")
+}
